@@ -64,10 +64,10 @@ var c04LOD = []func(h float32) (float32, float32){
 var c04Letters = func() []c04Letter {
 	var ls []c04Letter
 	add := func(c rec.Call) { ls = append(ls, c04Letter{call: c}) }
-	for _, s := range []uint8{0, 1, 62, 63} {
+	for _, s := range []uint8{0, 1, 32, 62, 63} { // both ends of the wrap and the top bit of the 6-bit selector
 		add(rec.Call{M: rec.MSetCSel, Adj: s})
 	}
-	for _, s := range []uint8{0, 1, 62, 63} {
+	for _, s := range []uint8{0, 1, 33, 62, 63} {
 		add(rec.Call{M: rec.MSetNSel, Adj: s})
 	}
 	for _, c := range domCol {
@@ -80,6 +80,11 @@ var c04Letters = func() []c04Letter {
 		add(rec.Call{M: rec.MSetCReg, Adj: 1, C: domCol[ci]})
 		add(rec.Call{M: rec.MSetCReg, Adj: 6, C: domCol[ci]})
 		add(rec.Call{M: rec.MSetCReg, Incr: true, C: domCol[ci]})
+	}
+	// every ADJ value once more (2..5 are not covered by the 0/1/6 letters)
+	for adj := uint8(2); adj <= 5; adj++ {
+		add(rec.Call{M: rec.MSetCReg, Adj: adj, C: domCol[int(adj)*3%len(domCol)]})
+		add(rec.Call{M: rec.MSetNReg, Adj: adj, A: [6]float32{float32(adj) / 8}})
 	}
 	for _, f := range []float32{0, 0.25, 0.5, 1, -0.1, 1.5, nanF} {
 		add(rec.Call{M: rec.MSetNReg, A: [6]float32{f}})
@@ -121,7 +126,7 @@ func init() {
 	mc.Register(&mc.Check{
 		ID:    "C04",
 		Level: "model_checking",
-		Rule: fmt.Sprintf("engine S: every history of <=3 (thorough <=4) styling calls over a %d-letter alphabet (CSEL/NSEL in {0,1,62,63}; SetCReg with ADJ 0/1/6 and increment over %d colour classes incl. palette, register, blend, gradient, invalid and transparent values; SetNReg over {0,.25,.5,1,-.1,1.5,NaN}; 9 LOD pairs around the raster height incl. infinities and NaN), each followed by probe paths with ADJ 0, 1, 6 (and two consecutive probes), x raster heights {0,1,8,64,65} x 3 custom palettes, on a real Renderer over a recording rasteriser in lock step with the specification VM; ", nl, len(domCol)) +
+		Rule: fmt.Sprintf("engine S: every history of <=3 (thorough <=4) styling calls over a %d-letter alphabet (CSEL/NSEL in {0,1,32/33,62,63}; SetCReg with ADJ 0/1/6 and increment (ADJ 2..5 once each) over %d colour classes incl. palette, register, blend, gradient, invalid and transparent values; SetNReg over {0,.25,.5,1,-.1,1.5,NaN}; 9 LOD pairs around the raster height incl. infinities and NaN), each followed by probe paths with ADJ 0, 1, 6 (and two consecutive probes), x raster heights {0,1,8,64,65} x 3 custom palettes, on a real Renderer over a recording rasteriser in lock step with the specification VM; ", nl, len(domCol)) +
 			"plus the gradient table: every (CBASE,NBASE,NSTOPS) in 64^3 x 7 register-file templates. After every probe: no rasteriser activity iff the VM says not drawn; else exactly one Reset/Draw pair whose paint (flat colour, or gradient shape/spread/stop colours/offsets) equals the VM's. Programs of depth <=2 are also assembled by the Encoder and run through Decode. " +
 			"states = (history, height, palette) executed, transitions = calls; non-trivial = probe painted with a gradient or skipped",
 		Assumptions: []string{"NSTOPS < 2 is left unjudged (neither the specification nor C04 defines it)", "gradient matrix geometry is C15/C19's subject; here only stops, shape and spread"},
@@ -145,6 +150,8 @@ func init() {
 					st.history(&c04Case{Kind: "history", Letters: seq, Height: h, Pal: pal, Probes: []int{6, 0}})
 					if len(seq) <= 2 {
 						st.history(&c04Case{Kind: "history", Letters: seq, Height: h, Pal: pal, Probes: []int{1, 0}, Reused: true})
+						st.history(&c04Case{Kind: "history", Letters: seq, Height: h, Pal: pal, Probes: []int{2, 3}})
+						st.history(&c04Case{Kind: "history", Letters: seq, Height: h, Pal: pal, Probes: []int{4, 5}})
 					}
 				}
 				if len(seq) == D {
